@@ -522,7 +522,9 @@ func (eng *Engine) verifyFunction(tg target) *funcResult {
 			if e.Label != "" {
 				name = "ensures-" + e.Label
 			}
-			fc.oblige(ret, "ensures", name, g, "postcondition: "+e.Text, token.NoPos, true)
+			if ob := fc.oblige(ret, "ensures", name, g, "postcondition: "+e.Text, token.NoPos, true); ob != nil {
+				ob.Clause = e.Expr
+			}
 		}
 		for i, e := range c.Shows {
 			g, err := env.goal(e.Expr)
@@ -534,7 +536,9 @@ func (eng *Engine) verifyFunction(tg target) *funcResult {
 			if e.Label != "" {
 				name = "shows-" + e.Label
 			}
-			fc.oblige(ret, "ensures", name, g, "postcondition (not exported to callers): "+e.Text, token.NoPos, true)
+			if ob := fc.oblige(ret, "ensures", name, g, "postcondition (not exported to callers): "+e.Text, token.NoPos, true); ob != nil {
+				ob.Clause = e.Expr
+			}
 		}
 		for i, a := range args {
 			for j, f := range fc.typeInvOf(ret, a) {
